@@ -38,6 +38,10 @@ CLAIMS = {
          "TLC runs the extraction algorithm as an explicit-stack machine over abstract hash terms on a LAZILY chosen message (Gen_PartialMerkle): invariants Sound (every reported hash is the leaf at the reported position under the returned root) and Agree (recursive definition = machine); every terminal equivalence class is replayed on the real extractor (tail filled with 0s and 1s) together with mutated honest proofs, and TLC decides each result with the recursive definition over logged SHA facts",
          "model checking of the extraction design over the exhaustive small scope plus trace validation of every message class on the real code",
          "double-SHA256 pair facts planned by an independent walk in the harness (missing fact = exit 2)"),
+ "C10": ("DESIGN.md §4 C10",
+         "TLA+ spec TxFilter on top of Bloom: MatchTxAndUpdate as BIP37 IsRelevantAndUpdate (result and post-state exact, bit-level via Murmur3) and the block scan as the relation Lower (least fixpoint of relevance under exact-set semantics) <= reported <= Upper (final filter bits); real transactions with random intra-block spend DAGs, every script shape, three update flags, topological / reverse / random orders are scanned through the three APIs and judged by TLC trace validation",
+         "model checking of the underlying abstract filter plus TLC trace validation of recorded transaction matches and block scans against the BIP37 definition and the scan contract",
+         "txscript push extraction / script class are environment facts; named deviations for unparsable scripts and empty pushes"),
 }
 
 NOT_YET = "check not built yet in this round; see DESIGN.md for the planned TLA+ model"
